@@ -148,6 +148,81 @@ func jlsGolomb(c *hx.Ctx, n int) {
 	}
 }
 
+// jlsReaderOps drives the real GolombReader and the model reader (lean/GdcVerif/Model/GolombReader.lean)
+// with the same call sequences on the same bytes: writer output (well-stuffed), writer output cut
+// short, and arbitrary bytes (markers inside, trailing 0xFF, 0xFF 0xFF).
+//   jls-gr <bytes> op…   op -1 = ReadBit, op n >= 0 = ReadBits(n)
+func jlsReaderOps(c *hx.Ctx, n int) {
+	r := c.R
+	for round := 0; round < n; round++ {
+		var data []byte
+		switch r.Intn(4) {
+		case 0: // arbitrary bytes, 0xFF frequent
+			data = make([]byte, r.Range(0, 40))
+			for i := range data {
+				switch r.Intn(4) {
+				case 0:
+					data[i] = 0xFF
+				case 1:
+					data[i] = byte(r.Intn(0x80))
+				default:
+					data[i] = byte(r.U64())
+				}
+			}
+		default: // what the writer produces
+			var buf bytes.Buffer
+			gw := lossless.NewGolombWriter(&buf)
+			for i := r.Range(0, 30); i > 0; i-- {
+				cnt := r.Pick([]int{1, 1, 3, 7, 8, 9, 16, 31, 32, r.Range(0, 32)})
+				v := uint32(r.U64())
+				if r.Intn(3) == 0 {
+					v = 0xFFFFFFFF
+				}
+				if cnt < 32 {
+					v &= (1 << uint(cnt)) - 1
+				}
+				_ = gw.WriteBits(v, cnt)
+			}
+			_ = gw.Flush()
+			data = buf.Bytes()
+			if r.Intn(5) == 0 && len(data) > 0 {
+				data = data[:r.Intn(len(data))]
+			}
+		}
+		nops := r.Range(1, 60)
+		ops := make([]int, nops)
+		for i := range ops {
+			ops[i] = r.Pick([]int{-1, -1, -1, 1, 2, 5, 8, 13, 16, 24, 31, 32, 0, 33, r.Range(0, 32)})
+		}
+		var b strings.Builder
+		b.WriteString("ok")
+		p, _ := hx.Guard(func() {
+			gr := lossless.NewGolombReader(bytes.NewReader(data))
+			for _, op := range ops {
+				var v int
+				var err error
+				if op == -1 {
+					v, err = gr.ReadBit()
+				} else {
+					var u uint32
+					u, err = gr.ReadBits(op)
+					v = int(u)
+				}
+				if err != nil {
+					b.WriteString(" err")
+					return
+				}
+				fmt.Fprintf(&b, " %d", v)
+			}
+		})
+		if p {
+			b.WriteString(" panic")
+		}
+		c.Case("jls-gr "+hx.Hex(data)+jlsArgs(ops), b.String())
+		c.Count("kernel:jls-gr")
+	}
+}
+
 func jlsArgs(a []int) string {
 	var b strings.Builder
 	for _, v := range a {
